@@ -292,7 +292,24 @@ fn shape_eval_kind<F: Function<Trace = VmTrace> + Clone>(
     }
 }
 
-fn run<F: MathFunction + Function<Trace = VmTrace> + fidget_core::render::RenderHints>(
+/// The tape behind a function, where the backend exposes it: the advertised
+/// slot count and the instruction listing are results of a simplification too
+/// (they size the interpreter's slot array and the JIT's stack frame)
+pub trait TapeView {
+    fn tape_view(&self) -> Option<(usize, Vec<fidget_core::compiler::RegOp>)>;
+}
+impl<const N: usize> TapeView for fidget_core::vm::GenericVmFunction<N> {
+    fn tape_view(&self) -> Option<(usize, Vec<fidget_core::compiler::RegOp>)> {
+        Some((self.data().slot_count(), self.data().iter_asm().collect()))
+    }
+}
+impl TapeView for JitFunction {
+    fn tape_view(&self) -> Option<(usize, Vec<fidget_core::compiler::RegOp>)> {
+        None
+    }
+}
+
+fn run<F: MathFunction + Function<Trace = VmTrace> + fidget_core::render::RenderHints + TapeView>(
     case: &Case,
     cx: &mut Cx,
 ) -> CheckResult {
@@ -368,6 +385,18 @@ fn run<F: MathFunction + Function<Trace = VmTrace> + fidget_core::render::Render
                         want.0.len(),
                         got.1,
                         want.1
+                    );
+                }
+                if let (Some(a), Some(b)) = (func.tape_view(), ff.tape_view()) {
+                    cx.ev.count("tapes_compared_with_fresh");
+                    ensure!(
+                        a.0 == b.0 && format!("{:?}", a.1) == format!("{:?}", b.1),
+                        "reuse-changes-function",
+                        "step {step}: the tape of function {li} built through recycled storage differs from the fresh one: {} slots / {} ops vs {} slots / {} ops",
+                        a.0,
+                        a.1.len(),
+                        b.0,
+                        b.1.len()
                     );
                 }
                 ensure!(
